@@ -41,6 +41,8 @@ theorem depth_kid {k : String} {ks : List Tree} {x : Tree} (h : x ∈ ks) : x.de
 theorem depth_getElem? {k : String} {ks : List Tree} {x : Tree} {i : Nat} (h : ks[i]? = some x) :
     x.depth + 1 ≤ (Tree.node k ks).depth := depth_kid (List.mem_of_getElem? h)
 
+theorem kind_node (k : String) (ks : List Tree) : (Tree.node k ks).kind = k := rfl
+
 theorem depth_pos (t : Tree) : 1 ≤ t.depth := by
   cases t <;> simp [depth]
 
